@@ -1957,6 +1957,19 @@ class Symex:
                 and args and not isinstance(args[0], T) and all(isinstance(a, int) for a in args[1:]):
             import itertools
             return [tuple(p) for p in getattr(itertools, short)(list(self.iterate(args[0], node)), *args[1:])]
+        if short == "groupby" and name in ("groupby", "itertools.groupby") and args and not isinstance(args[0], (T, Obj)):
+            # consecutive runs of equal keys, as itertools does it (concrete keys only)
+            seq = list(self.iterate(args[0], node))
+            kf = kw.get("key", args[1] if len(args) > 1 else None)
+            keys = [x if kf is None else self.call_value(kf, [x], {}, node) for x in seq]
+            if not any(_has_sym(k) or isinstance(k, Obj) for k in keys):
+                out = []
+                for x, k in zip(seq, keys):
+                    if out and _eq(out[-1][0], k):
+                        out[-1][1].append(x)
+                    else:
+                        out.append((k, [x]))
+                return out
         if name in ("Rational", "sympy.Rational") and len(args) == 2 and all(is_num(a) for a in args) and args[1] != 0:
             return t_div(args[0], args[1])
         if short == "sqrt" and len(args) == 1 and (is_num(args[0]) or isinstance(args[0], T)):
